@@ -45,6 +45,93 @@ def oracle(mx, mn):
     return None
 
 
+# --------------------------------------------------------------------------------------------
+# the CALLERS of fit_dtype named by the property: dense output (to_array), collapsed output, INDX
+# coordinate words.  A caller that hands fit_dtype the wrong pair (e.g. the lexicographically last key
+# instead of the largest coordinate) selects a type that wraps although fit_dtype itself is right.
+# --------------------------------------------------------------------------------------------
+POS = [0, 1, 2, 127, 128, 255, 256, 32767, 32768, 65535, 65536, 2 ** 31 - 1, 2 ** 31, 2 ** 32 - 1, 2 ** 32, 2 ** 62, 2 ** 63 - 1]
+NEG = [-1, -2, -128, -129, -32768, -32769, -2 ** 31, -2 ** 31 - 1, -2 ** 62, -2 ** 63]
+
+
+def caller_cases(ctx, n):
+    """-> list of dicts {kind, values (what must be stored), observed dtype code, detail}; wrong ones flagged by the oracle."""
+    import numpy
+    from catii import iindex
+    from catii.indxio import IndxIO
+    from . import c10
+    rng = ctx.rng
+    out = []
+    impl = None
+    for i in range(n):
+        kind = ["to_array", "to_array_mapping", "indx_word", "collapsed"][i % 4]
+        try:
+            if kind in ("to_array", "to_array_mapping", "collapsed"):
+                pool = rng.sample(POS, 3) + (rng.sample(NEG, 2) if rng.random() < 0.5 else [])
+                ncol = rng.choice([1, 2, 3]) if kind != "collapsed" else rng.choice([2, 3])
+                nrow = rng.randint(1, 6)
+                data = [[rng.choice(pool) for _ in range(ncol)] for _ in range(nrow)]
+                a = numpy.array(data, dtype=numpy.int64)
+                if ncol == 1 and kind != "collapsed" and rng.random() < 0.5:
+                    a = a[:, 0]
+                common = rng.choice(pool + [rng.choice(POS)]) if rng.random() < 0.6 else None
+                idx = iindex.from_array(a, common=common) if common is not None else iindex.from_array(a)
+                if kind == "to_array":
+                    vs = sorted(set(a.flatten().tolist()) | {int(idx.common)})
+                    res = idx.to_array()
+                    ok_vals = res.tolist() == a.tolist()
+                    out.append({"kind": kind, "values": vs, "observed": res.dtype.name, "values_ok": ok_vals,
+                                "detail": {"array": a.tolist(), "common": common}})
+                elif kind == "to_array_mapping":
+                    keys = sorted(set(a.flatten().tolist()) | {int(idx.common)})
+                    tg = [rng.choice(POS + NEG) for _ in keys]
+                    m = dict(zip(keys, tg))
+                    if min(tg) < 0 and max(tg) >= 2 ** 63:
+                        continue
+                    res = idx.to_array(mapping=m)
+                    want = [[m[v] for v in row] for row in a.tolist()] if a.ndim == 2 else [m[v] for v in a.tolist()]
+                    out.append({"kind": kind, "values": sorted(set(tg)), "observed": res.dtype.name, "values_ok": res.tolist() == want,
+                                "detail": {"array": a.tolist(), "common": common, "mapping": [[k, v] for k, v in m.items()]}})
+                else:
+                    prec = rng.sample(pool, min(len(pool), rng.randint(1, 4)))
+                    if rng.random() < 0.4:
+                        extra = rng.choice(POS + NEG)
+                        if extra not in prec:         # repeated precedence values are C06's business (F23), not C19's
+                            prec.append(extra)
+                    if min(prec) < 0 and max(prec) >= 2 ** 63:
+                        continue
+                    res = idx.collapsed(prec).to_array()
+                    want = []
+                    for row in a.tolist():
+                        w = [q for q in prec if q in row]
+                        want.append(w[0] if w else prec[-1])
+                    # the working dtype is internal: too narrow a choice shows as OverflowError or wrapped values
+                    out.append({"kind": kind, "values": sorted(set(prec)), "observed": None, "values_ok": res.tolist() == want,
+                                "detail": {"array": a.tolist(), "common": common, "precedence": prec, "got": res.tolist(), "want": want}})
+            else:
+                if impl is None:
+                    impl = c10.Impl(ctx)
+                arity = rng.choice([1, 2, 2, 3])
+                nent = rng.randint(0, 5)
+                cls = rng.choice([255, 65535, 2 ** 32 - 1, 2 ** 63 - 1])
+                keys = set()
+                for _ in range(nent):
+                    keys.add(tuple(rng.choice([0, 1, 2, rng.randint(0, 300), rng.choice([v for v in POS if v <= cls])]) for _ in range(arity)))
+                keys = list(keys)
+                rng.shuffle(keys)
+                commonv = rng.choice([0, 3, rng.choice([v for v in POS if v <= rng.choice([255, 65535, 2 ** 32 - 1, 2 ** 63 - 1])])])
+                entries = [(k, sorted(rng.sample(range(50), rng.randint(0, 3)))) for k in keys]
+                b = impl.save(entries, commonv)
+                iw = b[16 + 5]          # payload: dims (1) count (4) index word size (1)
+                vs = sorted(set([commonv] + [c for k in keys for c in k]))
+                out.append({"kind": kind, "values": vs, "observed": "uint%d" % (8 * iw), "values_ok": True,
+                            "detail": {"entries": [[list(k), v] for k, v in entries], "common": commonv}})
+        except Exception as e:   # the callers are total on these inputs
+            out.append({"kind": kind, "values": [], "observed": "raised:" + type(e).__name__, "values_ok": False,
+                        "detail": {"error": repr(e)[:200], "kind": kind}})
+    return out
+
+
 def run(ctx):
     ctx.rule = ("grid {+-2^k, +-2^k+-1 : k<=64} u {integer literals of fit_dtype +-1} squared, pruned to the domain "
                 "(-2^63<=min', max<2^64, min'<0 -> max<2^63, min'<=max); a case is non-trivial/distinct per (max,min) pair; "
@@ -113,7 +200,31 @@ def run(ctx):
             wrong.append({"word_size": s, "format": f, "dtype": d, "expected": "little-endian unsigned of that size"})
     ctx.coverage["word_size_tables"] = tab
 
+    # callers
+    cc = caller_cases(ctx, 3000 if ctx.tier == "thorough" else 600)
+    caller_wrong, caller_lits = [], []
+    for c in cc:
+        want = oracle(max(c["values"]), min(c["values"])) if c["values"] else None
+        bad = (not c["values_ok"]) or (c["observed"] is not None and c["observed"] != want)
+        if bad:
+            caller_wrong.append(dict(c, expected_dtype=want))
+        if c["values"] and c["observed"] in DT_CODE:
+            caller_lits.append("(%s, %s)" % (core.zlist(c["values"]), core.zlit(DT_CODE[c["observed"]])))
+        ctx.nontrivial.add((c["kind"], tuple(c["values"])))
+    ctx.evaluations += len(cc)
+    kinds = {}
+    for c in cc:
+        kinds[c["kind"]] = kinds.get(c["kind"], 0) + 1
+    ctx.coverage["caller_cases"] = kinds
+    ctx.samples += [{"caller": c["kind"], "values_to_store": c["values"], "selected": c["observed"]} for c in cc[:4]]
+
     prelude = "From Catii Require Import Dtype.FitSpec Dtype.FitHand" + (" Dtype.gen.FitGen" if gen["ok"] else "") + "."
+    # the dtype a caller selected is the specification's choice for (max, min) of the values it has to store
+    cres = core.run_cases("c19callers", prelude, caller_lits, "list Z * Z",
+                          "fun c => match fst c with [] => false | x :: l => "
+                          "match spec_choice (fold_left Z.max l x) (fold_left Z.min l x) with Some d => Z.eqb (dtype_code d) (snd c) | None => false end end",
+                          None, shard_size=400)
+    ctx.coverage["caller_model_disagreements"] = len(cres.failing)
     chk = ("fun c => let '(mx, mn, code) := c in "
            "match spec_choice mx mn with Some d => Z.eqb (dtype_code d) code | None => false end "
            "&& Z.eqb (dtype_code (fit_dtype mx mn)) code"
@@ -127,6 +238,14 @@ def run(ctx):
     ctx.coverage["impl_raised"] = n_err
 
     # ---- verdict ----
+    if caller_wrong:
+        caller_wrong.sort(key=lambda c: len(str(c["detail"])))
+        ctx.report("fit_dtype:caller-wrong-width", "a caller of fit_dtype (%s) selects a dtype that is not the narrowest one holding the values it stores "
+                   "(or wraps / raises)" % caller_wrong[0]["kind"], {"failing_inputs": caller_wrong[:10], "count": len(caller_wrong),
+                   "how": "to_array()/to_array(mapping=) dtype, IndxIO.save index word size byte, collapsed() values vs narrowest NumPy dtype for (max, min) of the stored values"})
+    elif cres.failing or cres.errors:
+        ctx.report("c19:not-shown", "caller suite: selected dtype differs from spec_choice inside Coq (%d cases) / shards failed (%d)" % (len(cres.failing), len(cres.errors)),
+                   {"disagreeing_cases": [caller_lits[i] for i in cres.failing[:10]], "errors": [e[1][-400:] for e in cres.errors[:2]]}, found_input=False)
     if wrong:
         w = wrong[0]
         ctx.report("fit_dtype:wrong-choice", "the selected dtype is not the narrowest sufficient one", {
